@@ -3,7 +3,7 @@
      maxDepth allocCheck rootProt notTree  nQ queue*  nReq request*
      queue   = name parent(0 = "") allocatedPods state rl(cap) rl(deserved) rl(guarantee)
      rl      = n (dim amount)*n
-     request = 1 name parent rl rl rl | 2 name parent rl rl rl | 3 name | 4 name pods state (-1 = unchanged)
+     request = 1 name parent rl rl rl | 2 name parent rl rl rl | 3 name | 4 name pods state (-1 = unchanged) | 5 name (DELETE, finalizer) | 6 name (finalizer removed)
    sel 1 answers  (tag(i) verdict_i)*  tag(900) final queue set (names ascending)
                   tag(901) whether the capacity plugin accepts that queue set.
    sel 101..105 take the history followed by the implementation's verdict list. *)
@@ -37,6 +37,8 @@ Definition dReq : dec req :=
   if k =? 1 then let* n := dPos in let* s := dSpecBody 0 in ret (Create n s)
   else if k =? 2 then let* n := dPos in let* s := dSpecBody 0 in ret (Update n s)
   else if k =? 3 then let* n := dPos in ret (Delete n)
+  else if k =? 5 then let* n := dPos in ret (DeleteFin n)
+  else if k =? 6 then let* n := dPos in ret (EnvGone n)
   else if k =? 4 then let* n := dPos in let* a := dZ in let* st := dZ in ret (EnvStatus n a st)
   else fail.
 Definition dCfg : dec cfg :=
@@ -64,7 +66,10 @@ Fixpoint eVerdicts (i : Z) (vs : list verdict) : list Z :=
 
 Definition run_entry (c : cfg) (Q0 : queues) (rs : list req) : list Z :=
   eVerdicts 1 (verdicts c Q0 rs) ++ tag 900 ++ eState (run_history c Q0 rs) ++
-  tag 901 ++ eBool (capacity_ready (run_history c Q0 rs)).
+  tag 901 ++ eBool (capacity_ready (run_history c Q0 rs)) ++
+  (* 903: GetQueuesByParent answered the same through the informer's parent index (whose verdict is the
+     one reported) and through the lister fallback on every request: always, in the model there is one lookup *)
+  tag 903 ++ eBool true.
 
 Definition law_entry (f : cfg -> queues -> list req -> list Z -> bool) (toks : list Z) : list Z :=
   match run_dec (let* h := dHistory in let* vs := dList dZ in ret (h, vs)) toks with
